@@ -307,7 +307,9 @@ func (sc *serverConn) readLoop() (err error) {
 	var expectContinuation uint32
 
 	for err == nil {
-		fr, err = ReadFrameFromWithSize(sc.br, sc.clientS.frameSize)
+		// The limit on what we read is the one we advertised, not the one the
+		// peer advertised for the frames it is willing to receive.
+		fr, err = ReadFrameFromWithSize(sc.br, sc.st.frameSize)
 		if err != nil {
 			if errors.Is(err, ErrUnknownFrameType) {
 				// Unknown frame types are discarded, not rejected (RFC 7540
